@@ -264,3 +264,128 @@ Theorem wf2_run v k ops : forall s, WF2 s -> WF2 (run v k s ops).
 Proof.
   induction ops as [|o t IH]; intros s Hw; [exact Hw|]. cbn [run fold_left]. apply IH. apply wf2_step. exact Hw.
 Qed.
+
+(* ------------------------------------------------------------------------------------------ *)
+(* (d) counts                                                                                  *)
+(* ------------------------------------------------------------------------------------------ *)
+Definition b2n (b : bool) : N := if b then 1 else 0.
+Definition has {V} (o : option V) : bool := match o with Some _ => true | None => false end.
+
+(* CloseConnection(c) gives back exactly what c held: one session slot / control slot / tunnel slot each iff it held one *)
+Theorem counts_close_conn c s : Inv s -> WF2 s ->
+  counts s = (let '(t, ct, tn) := counts (close_conn c s) in
+              (t + b2n (mem c (sess s)), ct + b2n (has (get c (reg s))), tn + b2n (has (get c (tun s))))).
+Proof.
+  intros Hinv Hw. unfold counts. rewrite sess_close_conn, reg_close_conn, tun_close_conn.
+  assert (H1 : N.of_nat (length (sess s)) = N.of_nat (length (rem c (sess s))) + b2n (mem c (sess s))).
+  { destruct (mem c (sess s)) eqn:E; cbn [b2n].
+    - pose proof (length_rem c (sess s) (wf_nd_sess _ Hw) E). lia.
+    - rewrite (rem_notin _ _ E). lia. }
+  assert (H2 : size (reg s) = size (del c (reg s)) + b2n (has (get c (reg s)))).
+  { destruct (get c (reg s)) as [r|] eqn:E; cbn [has b2n].
+    - pose proof (size_del_some c r (reg s) (inv_nd_reg _ Hinv) E). lia.
+    - rewrite (del_none _ _ E). lia. }
+  assert (H3 : size (tun s) = size (del c (tun s)) + b2n (has (get c (tun s)))).
+  { destruct (get c (tun s)) as [t|] eqn:E; cbn [has b2n].
+    - pose proof (size_del_some c t (tun s) (wf_nd_tun _ Hw) E). lia.
+    - rewrite (del_none _ _ E). lia. }
+  rewrite <- H1, <- H2, <- H3. reflexivity.
+Qed.
+
+(* opening and closing a connection restores every count *)
+Theorem accept_close_roundtrip v k c s : WF2 s ->
+  mem c (streams s) = false -> (0 <? maxConn k) && (maxConn k <=? N.of_nat (length (sess s))) = false ->
+  counts (run v k s [Accept c]) = (let '(t, ct, tn) := counts s in (t + 1, ct, tn)) /\
+  counts (run v k s [Accept c; CloseConn c]) = counts s.
+Proof.
+  intros Hw Hs Hl. cbn [run fold_left step]. rewrite Hl, Hs. cbn [fst].
+  assert (Hns : mem c (sess s) = false).
+  { destruct (mem c (sess s)) eqn:E; [|reflexivity]. rewrite (wf_sess_streams _ Hw c E) in Hs. discriminate. }
+  assert (Hnr : get c (reg s) = None).
+  { destruct (get c (reg s)) eqn:E; [|reflexivity]. assert (Hx : get c (reg s) <> None) by congruence.
+    rewrite (wf_reg_sess _ Hw c Hx) in Hns. discriminate. }
+  assert (Hnt : get c (tun s) = None).
+  { destruct (get c (tun s)) eqn:E; [|reflexivity]. assert (Hx : get c (tun s) <> None) by congruence.
+    rewrite (wf_tun_sess _ Hw c Hx) in Hns. discriminate. }
+  split.
+  - unfold counts. proj. cbn [length]. f_equal. f_equal. lia.
+  - unfold counts. rewrite sess_close_conn, reg_close_conn, tun_close_conn. proj.
+    cbn [rem]. rewrite N.eqb_refl. rewrite (rem_notin _ _ Hns), (del_none _ _ Hnr), (del_none _ _ Hnt). reflexivity.
+Qed.
+
+(* ------------------------------------------------------------------------------------------ *)
+(* (c) a closed connection never comes back                                                    *)
+(* ------------------------------------------------------------------------------------------ *)
+Definition Dead (c : N) (s : st) : Prop := mem c (streams s) = true /\ mem c (sess s) = false.
+
+Lemma dead_ctl_only c s s' : ctl_only s s' -> Dead c s -> Dead c s'.
+Proof. intros [A1 A2 _ _ _] [D1 D2]. split; [rewrite A1|rewrite A2]; assumption. Qed.
+
+Lemma dead_close_conn c c' s : Dead c s -> Dead c (close_conn c' s).
+Proof.
+  intros [D1 D2]. split; [rewrite streams_close_conn; exact D1|]. rewrite sess_close_conn.
+  destruct (mem c (rem c' (sess s))) eqn:E; [|reflexivity]. rewrite (mem_rem_sub _ _ _ E) in D2. discriminate.
+Qed.
+
+Lemma dead_sweep_one c s e : Dead c s -> Dead c (sweep_one s e).
+Proof.
+  intros Hd. destruct e as [c' r]. unfold sweep_one.
+  set (s1 := with_reg (with_idx s (unindex c' r (idx s))) (del c' (reg s))).
+  assert (H1 : Dead c s1) by exact Hd.
+  pose proof (dead_close_conn c c' s1 H1) as [D1 D2]. split; assumption.
+Qed.
+
+Lemma dead_step v k s o c : Dead c s -> Dead c (fst (step v k s o)).
+Proof.
+  intros Hd. destruct o as [c1|c1 kind x isCtl|c1|c1|c1|c1|x newc| |d|c1 pre|c1 x|c1 t|c1]; cbn [step].
+  - destruct ((0 <? maxConn k) && (maxConn k <=? N.of_nat (length (sess s)))); [exact Hd|].
+    destruct (mem c1 (streams s)) eqn:Es; [exact Hd|]. destruct Hd as [D1 D2]. split; cbn [fst]; proj; cbn [mem].
+    + rewrite D1. apply orb_true_r.
+    + rewrite D2. destruct (c =? c1) eqn:E; [|reflexivity]. apply N.eqb_eq in E. subst c1. congruence.
+  - apply (dead_ctl_only c s); [apply co_handshake|exact Hd].
+  - destruct (get c1 (reg s)); exact Hd.
+  - apply dead_close_conn. exact Hd.
+  - apply (dead_ctl_only c s); [apply co_registry_remove|exact Hd].
+  - apply (dead_ctl_only c s); [apply co_unregister|exact Hd].
+  - apply (dead_ctl_only c s); [apply co_kick|exact Hd].
+  - unfold sweep. cbn [fst]. generalize (stale_entries k s). intros l. revert s Hd.
+    induction l as [|e t IH]; cbn [fold_left]; intros s Hd; [exact Hd|]. apply IH. apply dead_sweep_one. exact Hd.
+  - exact Hd.
+  - destruct (mem c1 (sess s) && negb (mem c1 (closed s)) && match get c1 (reg s) with None => true | Some _ => false end) eqn:Eg; [|exact Hd].
+    cbn [fst]. apply andb_true_iff in Eg. destruct Eg as [Eg _]. apply andb_true_iff in Eg. destruct Eg as [Eg _].
+    apply (dead_ctl_only c s); [|exact Hd]. eapply co_trans; [apply co_register; exact Eg|apply co_bump].
+  - destruct ((0 <? x) && negb (mem c1 (closed s))); [|exact Hd]. cbn [fst].
+    apply (dead_ctl_only c s); [apply co_update_auth|exact Hd].
+  - destruct (mem c1 (sess s)); [|exact Hd]. cbn [fst].
+    pose proof (dead_ctl_only c s _ (co_unregister c1 s) Hd) as [D1 D2]. split; assumption.
+  - destruct (mem c1 (streams s)); exact Hd.
+Qed.
+
+Lemma dead_run v k ops c : forall s, Dead c s -> Dead c (run v k s ops).
+Proof.
+  induction ops as [|o t IH]; intros s Hd; [exact Hd|]. cbn [run fold_left]. apply IH. apply dead_step. exact Hd.
+Qed.
+
+(* once an accepted connection has been closed, no later history makes any lookup return it again *)
+Theorem closed_never_returns k ops1 ops2 c :
+  mem c (streams (run Current k init ops1)) = true ->
+  let s2 := run Current k (close_conn c (run Current k init ops1)) ops2 in
+  by_conn s2 c = None /\ (forall x, by_client s2 x <> Some c) /\ mem c (sess s2) = false /\
+  get c (tun s2) = None /\ mem c (closed s2) = true.
+Proof.
+  intros Hs s2. set (s1 := run Current k init ops1) in *.
+  assert (Hi1 : Inv s1) by (apply inv_run; exact inv_init).
+  assert (Hw1 : WF2 s1) by (apply wf2_run; exact wf2_init).
+  assert (Hi2 : Inv s2) by (apply inv_run; apply inv_close_conn; exact Hi1).
+  assert (Hw2 : WF2 s2) by (apply wf2_run; apply wf2_close_conn; exact Hw1).
+  assert (Hd : Dead c s2).
+  { apply dead_run. split; [rewrite streams_close_conn; exact Hs|rewrite sess_close_conn; apply mem_rem_same]. }
+  destruct Hd as [D1 D2].
+  assert (Hr : by_conn s2 c = None).
+  { unfold by_conn. destruct (get c (reg s2)) eqn:E; [|reflexivity]. assert (Hx : get c (reg s2) <> None) by congruence.
+    rewrite (wf_reg_sess _ Hw2 c Hx) in D2. discriminate. }
+  split; [exact Hr|]. split; [exact (OK1_not_registered _ _ _ _ (inv_ok _ Hi2) Hr)|]. split; [exact D2|]. split.
+  - destruct (get c (tun s2)) eqn:E; [|reflexivity]. assert (Hx : get c (tun s2) <> None) by congruence.
+    rewrite (wf_tun_sess _ Hw2 c Hx) in D2. discriminate.
+  - destruct (wf_streams _ Hw2 c D1) as [H|H]; [congruence|exact H].
+Qed.
